@@ -364,12 +364,12 @@ def rule_r5(ctx: Ctx, a: Automaton) -> None:
 
 def run(ctx: Ctx) -> None:
     a = rule_r1(ctx)
-    rule_r2(ctx, a)
+    ctx.attempt(rule_r2, ctx, a)
     from . import c05b
 
     ctx.rule("C03.R3", "directive table: each Specification directive reaches a handler with the specified effect (decision tables shared with C05.R8)", min_instances=9)
     c05b.rule_r8_directives(ctx, rid="C03.R3")
-    rule_r4(ctx)
-    rule_r5(ctx, a)
+    ctx.attempt(rule_r4, ctx)
+    ctx.attempt(rule_r5, ctx, a)
     ctx.assume("parsimonious visits children before their parent, left to right (NodeVisitor.visit as written in nodes.py)")
     ctx.undecided("equality of the re-parsed canonical rendering (a round trip over values); comment text attachment beyond 'exactly once, to the attribute pending at flush time'")
